@@ -114,5 +114,19 @@ def smootherFinalize {n} (scale : α) (post1 : SolState n α) (bws : List (PCond
   let rvT := p1c.marg p1m
   evalMarginals rvT (bws.map fun c => c.rescaleNoise scale)
 
+/-- `interpolate_fwd_at_t1(...).step_from`: the state from which stepping resumes after a step that ended
+exactly at a checkpoint / at the final grid point.  Smoothers reset the backward model to the identity
+(fixed-point: always; fixed-interval: since repository fix for D1), the filter keeps its marginal. -/
+def Strategy.atT1 {n} (s : Strategy) (st : SolState n α) : SolState n α :=
+  match s with
+  | .filter => st
+  | _ => { u := st.u, bw := PCond.identity n }
+
+/-- `solve_fixed_grid` + `Smoother.finalize` for a smoother: `states` are the saved states in time order
+(after each step), all marginals (smoothed) are returned in time order, initial one first. -/
+def solveFixedGridSmoothed {n} (s : Strategy) (scale : α) (states : List (SolState n α)) (last : SolState n α) :
+    List (Gauss n α) :=
+  (smootherFinalize scale (s.atT1 last) (states.reverse.map (·.bw))).reverse
+
 end
 end Pdq
